@@ -702,7 +702,16 @@ func runChild(res *mon.Result, bin string, idx int, base string) {
 				desc = fmt.Sprintf("admin %q", c)
 				history = append(history, desc)
 				res.LogCase("child %d batch %d: %s", idx, b, desc)
-				rl.adminSend(c)
+				if r.Chance(1, 5) {
+					// a second command on the same connection, sent without waiting for the reply
+					c2 := adminCmd(r, st)
+					history = append(history, fmt.Sprintf("admin (same connection) %q", c2))
+					res.LogCase("child %d batch %d: + %q", idx, b, c2)
+					rl.adminSend(c + "\n" + c2)
+					res.Count("admin_commands_sent", 1)
+				} else {
+					rl.adminSend(c)
+				}
 				res.Count("admin_commands_sent", 1)
 			}
 		case kind < 6:
@@ -748,14 +757,22 @@ func runChild(res *mon.Result, bin string, idx int, base string) {
 				}
 				path = "/routes/" + rk
 			}
-			desc = "http DELETE " + path
+			paths := []string{path}
+			if strings.Contains(path, "/destinations/") && r.Chance(1, 2) {
+				// remove every destination of that route, one by one (index 0 until nothing is left)
+				base := path[:strings.LastIndex(path, "/")]
+				paths = []string{base + "/0", base + "/0", base + "/0", base + "/0"}
+			}
+			desc = "http DELETE " + strings.Join(paths, " , ")
 			history = append(history, desc)
 			res.LogCase("child %d batch %d: %s", idx, b, desc)
-			req, _ := http.NewRequest("DELETE", fmt.Sprintf("http://127.0.0.1:%d%s", p.http, path), nil)
-			cl := &http.Client{Timeout: 5 * time.Second}
-			if resp, err := cl.Do(req); err == nil {
-				io.Copy(io.Discard, resp.Body)
-				resp.Body.Close()
+			for _, pth := range paths {
+				req, _ := http.NewRequest("DELETE", fmt.Sprintf("http://127.0.0.1:%d%s", p.http, pth), nil)
+				cl := &http.Client{Timeout: 5 * time.Second}
+				if resp, err := cl.Do(req); err == nil {
+					io.Copy(io.Discard, resp.Body)
+					resp.Body.Close()
+				}
 			}
 			res.Count("http_admin_requests", 1)
 		}
